@@ -42,7 +42,7 @@ WCOLS = 'IJK'
 NUMS = [0, 1, 2, 3, 5, -1, 2.5, 10, 100, -3.5]
 TEXTS = ['a', 'A', 'ab', 'AB', 'abc', 'b', 'xyz', 'a*', 'a?c', '', ' ',
          'apple', 'Apple pie', '5', '2.5', '-1', 'x~y', '~', 'a.c', '(x',
-         'a+b', '[ab]', 'a\\b', 'x*y']
+         'a+b', '[ab]', 'a\\b', 'x*y', 'aa', 'aba', 'abab', 'B']
 CELLS = NUMS + TEXTS + [True, False, None, None] + ['#N/A', '#DIV/0!']
 UNASSERTED = object()
 
@@ -370,7 +370,10 @@ def criteria_strategy():
     text = st.sampled_from([t for t in TEXTS if t.strip()] +
                            ['a*', '*b*', '?', 'a?', '*', 'A*', 'ap*e',
                             '~*', 'a~*', 'x~~y', '??', '*pie', 'ABC',
-                            '(x*', 'a.?', '[*', 'a+*', 'x~*y', 'a\\*'])
+                            '(x*', 'a.?', '[*', 'a+*', 'x~*y', 'a\\*',
+                            # head and tail that overlap in a short cell
+                            'a*a', 'ab*b', 'a*ab', 'ab*ab', 'b*b', 'ab*ba',
+                            'a*b*a', 'aa*a'])
     ops = st.sampled_from(['', '=', '<>', '<', '<=', '>', '>='])
     eqops = st.sampled_from(['', '=', '<>'])
     return st.one_of(
@@ -400,7 +403,8 @@ def resolve(crange, pairs):
                 c = [x, f'<>{x}', f'>{x}', f'<={x}', f'={x}', str(x)][mode % 6]
             elif klass(x) == 'text' and x.strip():
                 c = [x, '<>' + x, x[0] + '*', '<>' + x[0] + '*',
-                     '?' + x[1:], '=' + x.upper()][mode % 6]
+                     '?' + x[1:], '=' + x.upper(), x + '*' + x[-1],
+                     x[0] + '*' + x][mode % 8]
             elif klass(x) == 'blank':
                 c = ['', '=', '<>', '', '<>', '='][mode % 6]
             else:
@@ -438,7 +442,7 @@ def case_strategy():
 
 def pairs_strategy():
     derived = st.tuples(st.just('from'), st.integers(0, 14),
-                        st.integers(0, 5))
+                        st.integers(0, 7))
     # (one_of flattens nested one_of, so weight through a selector)
     one = st.tuples(st.integers(0, 1), st.integers(0, 3).flatmap(
         lambda k: criteria_strategy() if k == 0 else derived))
